@@ -1,0 +1,12 @@
+//go:build !verif
+
+// Purpose: No-op verification hooks (default build).
+// Exports: none.
+// Role: Keeps call sites compiled out unless built with -tags verif.
+// Invariants: Must have no observable effect.
+// Notes: See verif_on.go for the instrumented variants.
+package ergo
+
+func verifPoint(name string, kv ...string) {}
+
+func verifNextID() (string, bool) { return "", false }
